@@ -11,4 +11,6 @@ for P in "$@"; do
     RES="$RES $P=$RC"
 done
 git -C /repo checkout -- . && git -C /repo clean -fdq -- rodbus ffi 2>/dev/null
+# the runs above were made on a changed tree: put the committed evidence files back
+git -C /verif checkout -- evidence 2>/dev/null
 echo "RESULT $PATCH:$RES"
